@@ -61,7 +61,9 @@ pub fn model_decode_at(bytes: &[u8], eenv: &Env, etys: &[Ty], lim: &Limits) -> (
         Err(e) => (ModelOutcome::Malformed(format!("{e:?}")), None),
         Ok(d) => {
             let env = d.env.merge_disjoint(eenv);
+            let _ = coerce::diverged();
             let r = match coerce::coerce_args(&env, &d.vals, &d.tys, etys) {
+                _ if coerce::diverged() => ModelOutcome::OutOfScope("expected type with an endless option nesting: the coercion rules give no verdict".into()),
                 Some(vs) => ModelOutcome::Ok(vs),
                 None => ModelOutcome::NoCoercion,
             };
